@@ -312,7 +312,7 @@ def rule_converters(ctx, repo):
         fi = rpc.functions.get(n)
         rets = [norm(n_.value) for n_ in walk_no_nested(fi.node) if isinstance(n_, ast.Return)] if fi else []
         p0 = fi.params[0] if fi and fi.params else 'b'
-        alts = {'hexlify_str': ["str(binascii.hexlify(%s), 'ascii')" % p0, '%s.hex()' % p0], 'unhexlify_str': ["binascii.unhexlify(bytes(%s, 'ascii'))" % p0]}.get(n, [])
+        alts = {'hexlify_str': ["str(binascii.hexlify(%s), 'ascii')" % p0, '%s.hex()' % p0, 'binascii.hexlify(%s).decode()' % p0, "binascii.hexlify(%s).decode('utf8')" % p0, "binascii.hexlify(%s).decode('utf-8')" % p0], 'unhexlify_str': ["binascii.unhexlify(bytes(%s, 'ascii'))" % p0]}.get(n, [])
         if rets == [w] or (len(rets) == 1 and rets[0] in alts):
             r.ok(n, fi.site if fi else '', w)
         elif len(rets) == 1 and ('hexlify' in rets[0] or 'hex' in rets[0]) and '[::-1]' not in rets[0] and 'reversed' not in rets[0]:
@@ -382,7 +382,7 @@ def rule_ids(ctx, repo):
     fi = bp.methods['_call']
     body = [s for s in fi.node.body if not (isinstance(s, ast.Expr) and isinstance(s.value, ast.Constant))]
     first = body[0] if body else None
-    ok = len(call) == 1 and call[0][1] == ('Add', '1') and first is call[0][2]
+    ok = len(call) == 1 and call[0][1] in (('Add', '1'), ('Sub', '-1')) and first is call[0][2]  # `n -= -1` is `n += 1` for the int counter
     if ok:
         r.ok('increment-first', common.site_of(fi, first), 'incremented unconditionally before anything that can fail')
     else:
